@@ -400,13 +400,24 @@ def run(ctx) -> None:
                if ok else "the argument string is rewritten by something other than a reference substitution",
                trivial=not is_site)
         if is_site:
-            inside = in_loop(n)
+            # inside the loop over the references - or inside ANY loop: a second pass scans what the first one inserted
+            inside = in_loop(n) or any(isinstance(a_, (ast.For, ast.While)) for a_ in source.ancestors(n))
             ctx.ob("C10.R6-no-rescan", n, not inside,
                    "the references are substituted in one pass after the loop over the references" if not inside else
                    "the argument string is rewritten inside the loop over the references: the text inserted for one reference (the "
                    "contents of an :output file, a path) is searched again for the references processed later - "
                    "references [A/note.txt:output, B:ref] with note.txt containing 'see B:ref' give a different result than "
                    "[B:ref, A/note.txt:output]", construct=short(n, 90) + " <- outside the reference loop")
+    # ... and at most one substitution of the argument string lies on any path (two consecutive passes re-scan as well)
+    site_nodes = [x for x in cfg.nodes if x.kind == "stmt" and any(x.ast is n_ for n_ in arg_assigns) and any(x.ast.value is s_.call for s_ in sites)]
+    if site_nodes:
+        rng = cfg.count_range(lambda nd: nd in site_nodes, ignore_labels=("exc",))
+        lo_hi = rng.get(cfg.exit.id, (0, 0))
+        ctx.ob("C10.R6-no-rescan", site_nodes[0].ast, lo_hi[1] <= 1,
+               "at most one substitution of the argument string lies on any path" if lo_hi[1] <= 1 else
+               "the argument string passes through %d reference substitutions on one path: the second scans the text the first inserted - an "
+               ":output file containing 'see B:ref' has its contents rewritten when B:ref is substituted afterwards" % lo_hi[1],
+               construct="reference substitutions of the argument string per path <= 1")
     n_site_assign = sum(1 for n in arg_assigns if any(n.value is s.call for s in sites))
     ctx.floor("C10.R6-no-rescan", n_site_assign, 1, "assignments of the argument string from a reference substitution")
 
